@@ -907,7 +907,23 @@ func (tr *Trans) expandIterator(fr *Frame, it *Val, yc *Val, pos token.Pos) {
 				}
 				dom = fmt.Sprintf("(exists (%s) %s)", strings.Join(bs, " "), dom)
 			}
-			allDone = fmt.Sprintf("(forall ((%s %s)) (! (=> %s (select %s %s)) :pattern ((select %s %s))))", q, ksort, dom, cur(visited), q, cur(visited), q)
+			// a second trigger: the first conjunct of the where-clause that mentions only the key (e.g. (rvhas v k)),
+			// so that a membership fact about the ranged collection instantiates the completion fact as well
+			pat2 := ""
+			kOnly := strings.ReplaceAll(whereE, ys[0].E, q)
+			for _, cj := range topConjuncts(kOnly) {
+				ok := strings.Contains(cj, q) && !strings.Contains(cj, "(ite ") && strings.HasPrefix(cj, "(") && !strings.HasPrefix(cj, "(=") && !strings.HasPrefix(cj, "(not")
+				for _, y := range ys[1:] {
+					if strings.Contains(cj, y.E) {
+						ok = false
+					}
+				}
+				if ok {
+					pat2 = " :pattern (" + cj + ")"
+					break
+				}
+			}
+			allDone = fmt.Sprintf("(forall ((%s %s)) (! (=> %s (select %s %s)) :pattern ((select %s %s))%s))", q, ksort, dom, cur(visited), q, cur(visited), q, pat2)
 		}
 	}
 	tr.cur.edge(head, "true")
@@ -1151,6 +1167,37 @@ func (tr *Trans) forgetObject(te TExpr, allocBefore string, pos token.Pos) {
 		// only if the object really is new (the clause may mention fresh(x) under a disjunction)
 		tr.cur.assign(hv, fmt.Sprintf("(ite (> %s %s) (store %s %s %s) %s)", ref, allocBefore, cur(hv), ref, fv, cur(hv)))
 	}
+}
+
+// topConjuncts splits an SMT term of the form (and A B ...) into its top-level conjuncts (one level, recursively for
+// nested ands); any other term is returned as it is.
+func topConjuncts(e string) []string {
+	e = strings.TrimSpace(e)
+	if !strings.HasPrefix(e, "(and ") {
+		return []string{e}
+	}
+	body := e[5 : len(e)-1]
+	var out []string
+	depth, start := 0, 0
+	for i := 0; i < len(body); i++ {
+		switch body[i] {
+		case '(':
+			depth++
+		case ')':
+			depth--
+		case ' ':
+			if depth == 0 {
+				if t := strings.TrimSpace(body[start:i]); t != "" {
+					out = append(out, topConjuncts(t)...)
+				}
+				start = i + 1
+			}
+		}
+	}
+	if t := strings.TrimSpace(body[start:]); t != "" {
+		out = append(out, topConjuncts(t)...)
+	}
+	return out
 }
 
 // restrict: a clause that says "uses a,b" is proved from those labelled invariants only.
